@@ -279,7 +279,7 @@ func queueFaults(c *vk.C, rng *rand.Rand, k int) {
 	outcomes = append(outcomes, "ok", "err", "ok", fmt.Sprintf("requeue:%d", reqMS), "ok", fmt.Sprintf("requeueerr:%d", reqMS), "skip", "err", "ok")
 
 	hook := []string{}
-	for i := 0; i < 16; i++ {
+	for i := 0; i < 40; i++ { // ~35 virtual minutes of failures: the delay must stay up however long the streak lasts
 		hook = append(hook, []string{"err", "panic"}[rng.IntN(2)])
 	}
 
@@ -339,7 +339,7 @@ func queueFaults(c *vk.C, rng *rand.Rand, k int) {
 		rtp.Quiesce(time.Duration(rng.IntN(4000)) * time.Millisecond)
 	}
 
-	rtp.Quiesce(25 * time.Minute) // streaks done: outcome index 14 ("ok") reached, the run hook is past its 16 failures
+	rtp.Quiesce(70 * time.Minute) // streaks done: outcome index 14 ("ok") reached, the run hook is past its 40 failures
 
 	// each further outcome needs a fresh notification for x (except the retries after err / requeue)
 	for i := 0; i < 12; i++ {
@@ -660,7 +660,7 @@ func tasks(c *vk.C, rng *rand.Rand, k int) {
 	base, _ := rtp.Census()
 
 	var outcomes []string
-	for i := 0; i < 16; i++ {
+	for i := 0; i < 40; i++ {
 		outcomes = append(outcomes, []string{"err", "panic"}[rng.IntN(2)])
 	}
 
@@ -677,7 +677,7 @@ func tasks(c *vk.C, rng *rand.Rand, k int) {
 
 	tk := task.New[int, spec](zap.NewNop(), sp, 0)
 	tk.Start(ctx)
-	rtp.Quiesce(30 * time.Minute)
+	rtp.Quiesce(90 * time.Minute)
 
 	mu.Lock()
 	var gaps []float64
